@@ -37,6 +37,9 @@ class NPProxy:
         a = lift(a)
         b = lift(b)
         d = a - b
+        from . import symx as _sx
+        if _sx.OPTS.get('sympy_normalise'):
+            return SB(zabs(_sx._normalise(d.e)) <= atol + rtol * zabs(_sx._normalise(b.e)))
         return SB(zabs(d.e) <= atol + rtol * zabs(b.e))
 
     @staticmethod
